@@ -17,7 +17,8 @@ import numpy as np
 import common
 
 LEVEL = 'proof'
-CN = 1024.0          # backward-error constant of the solver contract (largest ratio seen on the unchanged tree: 3.6)
+CN = 16384.0         # backward-error constant of the solver contract: 2^14, > 100 x the largest ratio seen on the unchanged tree
+                     # in thorough runs of seeds 0-2 (1-D 40, complex 16, 2-D 14, transposed solve 36, equal weights 73)
 EPS = F(common.EPS)
 
 # findings of the design/build phase that are not (yet) in KNOWN_FINDINGS.json; see finish_local()
@@ -370,7 +371,7 @@ def check_1d(chk, drv, sp, u, dkind, stats):
     for i in range(sp.nb):
         d = abs(F(float(ev[i])) - F(float(u[i])))
         bound = F(CN) * EPS * sc_o[i]
-        if sc_o[i] > 0:
+        if sc_o[i] > 0 and not min_per:
             stats['oracle_ratio'] = max(stats.get('oracle_ratio', 0.0), float(d / (EPS * sc_o[i])))
         if d > bound:
             bad = (i, float(ev[i]), float(u[i]))
@@ -394,6 +395,9 @@ def check_1d(chk, drv, sp, u, dkind, stats):
         return False
     if mo['old_differs']:
         chk.count('space where the last-wins assignment of the unpatched code loses an entry')
+    if not mo.get('hyp', False):
+        chk.diff('an interpolation point violates the hypothesis of interp_reproduces_1d(_cu) (span search / cell index)', case)
+        return False
     # matrix entries: public static method of the real class
     Mr = SplineInterpolator1D.collocation_matrix(sp.nb, sp.basis.knots, sp.p, xs, sp.per, sp.cu)
     Mm = [common.unrats(r) for r in mo['matrix']]
@@ -417,7 +421,7 @@ def check_1d(chk, drv, sp, u, dkind, stats):
         # solver contract: exact residual of what the real solver returned
         res, sc = common.unrats(mo['residual']), common.unrats(mo['scale'])
         for i in range(sp.nb):
-            if sc[i] > 0:
+            if sc[i] > 0 and not min_per:
                 stats['residual_ratio'] = max(stats.get('residual_ratio', 0.0), float(abs(res[i]) / (EPS * sc[i])))
             if abs(res[i]) > F(CN) * EPS * sc[i]:
                 chk.diff('solver contract: residual of row %d exceeds CN*eps*sum|M||c|' % i, case,
@@ -445,7 +449,7 @@ def check_1d(chk, drv, sp, u, dkind, stats):
     stats['lu'] = stats.get('lu', 0) + 1
     if not sp.per:
         # mechanism agreement (not deciding): band widths
-        if (int(itp._l), int(itp._u)) != (mo['l'], mo['u']):
+        if hasattr(itp, '_l') and hasattr(itp, '_u') and (int(itp._l), int(itp._u)) != (mo['l'], mo['u']):
             stats['band_mismatch'] = stats.get('band_mismatch', 0) + 1
     return ok
 
@@ -491,7 +495,10 @@ def banded(chk, drv):
     import pygyro.splines.spline_interpolators as si
     rng = chk.rng
     agree = tot = 0
-    orig = si.dgbtrf
+    orig = getattr(si, 'dgbtrf', None)
+    if orig is None:
+        chk.notes.setdefault('mechanism_agreement', {})['bmat handed to dgbtrf equals bandedStore'] = 'not observable (no dgbtrf in module)'
+        return
     seen = []
 
     def spy(bmat, l, u):
@@ -502,7 +509,10 @@ def banded(chk, drv):
         for it in range(chk.n(20, 200)):
             sp = gen_space(rng, per=False)
             del seen[:]
-            si.SplineInterpolator1D(sp.basis)
+            try:
+                si.SplineInterpolator1D(sp.basis)
+            except Exception:  # noqa: BLE001  (decided elsewhere)
+                continue
             if not seen:
                 continue
             bmat, l, u = seen[-1]
@@ -712,20 +722,19 @@ def interp_2d(chk, drv):
             wrap_ok &= np.array_equal(W[:, s2.nb:s2.nb + s2.p], W[:, :s2.p])
         if not wrap_ok:
             chk.fail('C08:wrap-2d', '2-D periodic coefficients are not wrapped', case)
-        # ---- correspondence.  The intermediate array of the first sweep is not observable afterwards; the contract
-        # of each sweep is checked on what an identical 1-D interpolator returns for the same rows (same code path:
-        # SplineInterpolator2D calls its two SplineInterpolator1D members row by row).
+        # ---- correspondence.  Only the final array is observable: the model's two-sweep function is fed the real solution
+        # block (sol1 := W[:n1,:n2]^T) and must rebuild the *whole* real array incl. both wraps exactly (pure data movement,
+        # independent of how the solves are organised); the contract is the exact residual of M1 W M2^T = U.  The first
+        # sweep's 1-D contract is measured on an own 1-D interpolator of direction 2.
         from pygyro.splines.splines import Spline1D
-        sp1 = Spline1D(s1.basis)
+        from pygyro.splines.spline_interpolators import SplineInterpolator1D
         sp2 = Spline1D(s2.basis)
+        it2 = SplineInterpolator1D(s2.basis)
         sol2 = np.zeros((s1.nb, s2.nb))
         for i1 in range(s1.nb):
-            itp._interp2.compute_interpolant(U[i1, :], sp2)
+            it2.compute_interpolant(U[i1, :], sp2)
             sol2[i1, :] = sp2.coeffs[:s2.nb]
-        sol1 = np.zeros((s2.nb, s1.nb))
-        for i2 in range(s2.nb):
-            itp._interp1.compute_interpolant(sol2[:, i2].copy(), sp1)
-            sol1[i2, :] = sp1.coeffs[:s1.nb]
+        sol1 = W[:s1.nb, :s2.nb].T.copy()
         mo = drv.call({'op': 'interp2d', 'space1': s1.req, 'space2': s2.req, 'xgrid1': common.rats(x1),
                        'xgrid2': common.rats(x2), 'u': [common.rats(r) for r in U],
                        'sol2': [common.rats(r) for r in sol2], 'sol1': [common.rats(r) for r in sol1]})
@@ -734,9 +743,9 @@ def interp_2d(chk, drv):
             continue
         Wm = [[F(x) for x in r] for r in mo['coeffs']]
         if Wm != [frs(r) for r in W]:
-            chk.diff('2-D coefficient array (two sweeps + wraps) differs', case,
+            chk.diff('2-D coefficient array: wraps of the model applied to the real solution block differ from the real array', case,
                      [[float(x) for x in r] for r in Wm], W.tolist())
-        for nm, sc in (('res2', 'scale2'), ('res1', 'scale1')):
+        for nm, sc in (('res2', 'scale2'), ('resU', 'scaleU')):
             R, Sc = mo[nm], mo[sc]
             for r_, s_ in zip(R, Sc):
                 for a, b in zip(r_, s_):
